@@ -193,11 +193,11 @@ def run(ctx):
 
     # --- V: recorded executions
     fixture = "/repo/fixtures/self/debug_line"
-    args = ["--seed", ctx.seed, "--n", 30 if q else 400, "--len", 80 if q else 250, "--raw", 30 if q else 400]
+    args = ["--seed", ctx.seed, "--n", 30 if q else 150, "--len", 80 if q else 150, "--raw", 30 if q else 150]
     if os.path.exists(fixture):
-        args += ["--fixture", fixture, "--fixture-units", 3 if q else 60, "--fixture-maxprog", 1500 if q else 8000]
+        args += ["--fixture", fixture, "--fixture-units", 3 if q else 30, "--fixture-maxprog", 1500 if q else 3000]
     tr = ctx.record(bins["dev"], "linesm.ndjson", args)
-    validate(ctx, tr, chunk_units=80 if q else 100)
+    validate(ctx, tr, chunk_units=80 if q else 60)
 
     ctx.assumptions += [
         "well-formed = the DWARF 6.2 machine (exact arithmetic) never leaves the address space, never moves the address backwards inside a sequence with DW_LNE_set_address (A1), never sets an address >= 2^W-2 (A2, reserved tombstones), keeps `line` within 0..2^64-1, and every instruction decodes; only then rows/files/sequences are compared strictly",
